@@ -17,6 +17,7 @@ parent = z3.Function("parent", Dir, Dir)
 depth = z3.Function("depth", Dir, z3.IntSort())
 isanc = z3.Function("isanc", Dir, Dir, z3.BoolSort())      # isanc(x, d): x is d or an ancestor of d
 hascfg = z3.Function("hascfg", Dir, z3.BoolSort())         # <d>/.signac/config is a file
+resolved = z3.Function("resolved", Dir, Dir)                # os.path.realpath: where symbolic links lead (unrelated to the lexical chain)
 legacy = z3.Function("legacy", Dir, z3.BoolSort())         # <d> holds a config of an older layout (v0/v1 signac.rc)
 
 
@@ -61,6 +62,7 @@ class DirCtx(Ctx):
         super().__init__(contract, case)
         self.externals[os.path.abspath] = lambda interp, p: p if isinstance(p, (LDir, LCfgFile)) else (_ for _ in ()).throw(Unsupported("abspath"))
         self.externals[os.path.dirname] = lambda interp, p: LDir(parent(p.e)) if isinstance(p, LDir) else (_ for _ in ()).throw(Unsupported("dirname"))
+        self.externals[os.path.realpath] = lambda interp, p: LDir(resolved(p.e)) if isinstance(p, LDir) else (_ for _ in ()).throw(Unsupported("realpath"))
         self.externals[os.path.join] = self.x_join
         self.externals[os.path.isfile] = self.x_isfile
 
